@@ -276,6 +276,8 @@ def alphabets(thorough: bool):
         else uniq([1001, 0, 1, 2, 0x7FFFFF, 0x800000, 0xFFFFFF, 0xFFFFFE, 0xFF, 0xFF00, 0xFF0000, 0x010203, env.det_int("c12.id24", 24)])
     )
     A["subnet"] = list(range(256)) if thorough else [10, 0, 1, 0x7F, 0x80, 0xFF]
+    # TMP / LP carry several wide fields: boundary + walking-bit subnets there (RRS takes all 256)
+    A["subnet_w"] = uniq([10] + spaces.field_alphabet(8, full_upto=0)) if thorough else A["subnet"]
     A["u32"] = (
         uniq(spaces.field_alphabet(32) + [0x01020304, env.det_int("c12.u32", 32)])
         if thorough
@@ -413,7 +415,7 @@ def make_kinds(thorough: bool):
         )
 
     for op in LP_OP:
-        f = {"is_reliable": A["bool"], "request_id": A["u32"], "subnet": A["subnet"], "radio_id": A["id24"]}
+        f = {"is_reliable": A["bool"], "request_id": A["u32"], "subnet": A["subnet_w"], "radio_id": A["id24"]}
         b0 = {"is_reliable": False, "request_id": 1, "subnet": 10, "radio_id": 1001}
         b1 = {"is_reliable": True, "request_id": 0xFFFFFFFF, "subnet": 0xFF, "radio_id": 0xFFFFFF}
         product = None
@@ -422,7 +424,7 @@ def make_kinds(thorough: bool):
             f.update(gps_fields)
             b0.update(result=0, **gps_b0)
             b1.update(result=105, **gps_b1)
-            product = ["is_reliable", "result"] + list(gps_fields)
+            product = list(gps_fields)
 
         def build(fv, op=op):
             kw = dict(
@@ -471,13 +473,13 @@ def make_kinds(thorough: bool):
             "is_confirmed": A["bool"],
             "opt": A["opt"],
             "request_id": A["u32"],
-            "dst_subnet": A["subnet"],
+            "dst_subnet": A["subnet_w"],
             "dst_id": A["id24"],
         }
         b0 = {"is_reliable": False, "is_confirmed": True, "opt": "off", "request_id": 1, "dst_subnet": 10, "dst_id": 1001}
         b1 = {"is_reliable": True, "is_confirmed": False, "opt": "on:010203", "request_id": 0xFFFFFFFF, "dst_subnet": 0, "dst_id": 0xFFFFFF}
         if has_src:
-            f["src_subnet"] = A["subnet"]
+            f["src_subnet"] = A["subnet_w"]
             f["src_id"] = A["id24"]
             b0.update(src_subnet=10, src_id=1002)
             b1.update(src_subnet=0xFF, src_id=0xFFFFFE)
@@ -561,10 +563,12 @@ def make_kinds(thorough: bool):
         def opbytes(fv, op=op):
             return bytes([(0x80 if fv["is_confirmed"] else 0) | (0x40 if fv["opt"] != "off" else 0), TMP_OP[op]])
 
-        kinds.append(Kind("TMP", op, f, [b0, b1], build, opbytes, expect, observe))
+        # thorough sub-product: all flag / option / content combinations x request ids, addresses at both bases
+        product = ["is_reliable", "is_confirmed", "opt", "request_id", "text" if is_msg else ("short_data" if is_short else "result_code")]
+        kinds.append(Kind("TMP", op, f, [b0, b1], build, opbytes, expect, observe, product))
 
     # ---------------- RCP -------------------------------------------------------------
-    def rcp_kind(op, fields, b0, b1, kwargs, exp, obs, opcode_bytes=None):
+    def rcp_kind(op, fields, b0, b1, kwargs, exp, obs, opcode_bytes=None, product=None):
         f = {"is_reliable": A["bool"]}
         f.update(fields)
         b0 = dict(b0, is_reliable=False)
@@ -580,7 +584,7 @@ def make_kinds(thorough: bool):
             return dict(obs(q), is_reliable=q.is_reliable, opcode=q.opcode.name)
 
         ob = opcode_bytes or (lambda fv: RCP_OP[op].to_bytes(2, "little"))
-        kinds.append(Kind("RCP", op, f, [b0, b1], build, ob, expect, observe))
+        kinds.append(Kind("RCP", op, f, [b0, b1], build, ob, expect, observe, (["is_reliable"] + product) if product else None))
 
     ct = list(range(16))  # RCPCallType 0x00..0x0F all defined
     # UnknownService: opcodes that are in no table (the frame keeps opcode and payload untouched)
@@ -643,6 +647,7 @@ def make_kinds(thorough: bool):
             target_id=q.target_id,
             sender_id=q.sender_id,
         ),
+        product=["mode", "status", "service", "call_type"],
     )
     rcp_kind(
         "BroadcastMessageConfigurationRequest",
@@ -704,6 +709,7 @@ def make_kinds(thorough: bool):
         ),
         lambda fv: dict(call_type=fv["call_type"], sender_id=fv["sender_id"], target_id=fv["target_id"], format=fv["format"], alias=fv["alias"]),
         lambda q: dict(call_type=q.call_type.value, sender_id=q.sender_id, target_id=q.target_id, format=q.talker_alias_data_format.value, alias=q.talker_alias_data.hex()),
+        product=["call_type", "format", "alias"],
     )
     rcp_kind(
         "SendTalkerAliasReply",
@@ -1171,7 +1177,7 @@ def build_field_spaces(rep, kinds):
             continue
         items = list(spaces.one_at_a_time_and_pairs(k.fields, k.bases))
         if k.product and rep.thorough():
-            # stated sub-product (LP report: reliable x result x all GPS fields), other fields at both bases;
+            # stated sub-product (LP report: all GPS fields; TMP: flags x option x content x request id; RCP: enums), other fields at both bases;
             # pair-space vectors that lie inside a sub-product are enumerated there only (no case twice)
             rest = [n for n in names if n not in k.product]
             items = [fv for fv in items if not any(all(fv[n] == b[n] for n in rest) for b in k.bases)]
@@ -1198,9 +1204,9 @@ def hrnp_space(rep, kinds):
     pn = uniq([0, 1, 2, 0x7FFF, 0x8000, 0xFFFF, 0xFFFE, 0xFF, 0x100, 0xFF00, env.det_int("c12.pn", 16)] + (spaces.field_alphabet(16) if t else []))
     srcdst = [(0x20, 0x10), (0x10, 0x20), (0, 0), (0xFF, 0xFF), (0x7F, 0x80), (0x30, 0x10)]
     if t:
-        srcdst += [(a, 0x10) for a in range(0x21, 0x30)] + [(0x20, a) for a in (1, 2, 0x80, 0xFE)]
-    blocks = [0, 1, 0xFF] + ([2, 0x7F, 0x80] if t else [])
-    versions = [4, 0] + ([1, 2, 3, 0xFF] if t else [])
+        srcdst += [(a, 0x10) for a in (0x21, 0x2F, 0x01, 0xFE)] + [(0x20, a) for a in (0x01, 0xFE)]
+    blocks = [0, 1, 0xFF] + ([0x80] if t else [])
+    versions = [4, 0] + ([3] if t else [])
     items = []
     for (kname, fv), v, blk, (src, dst) in itertools.product(reps, versions, blocks, srcdst):
         for p in pn:
@@ -1262,20 +1268,18 @@ def hstrp_space(rep, kinds):
     l2 = [0, 1, 4]
     optlists += [[[a, data(n)], [b, data(m, 1)]] for a in t2 for n in l2 for b in t2 for m in l2]
     t3 = ["RTP", "DeviceID", "ChannelID"] if t else ["RTP", "DeviceID"]
-    l3 = [0, 4] + ([255] if t else [])
+    l3 = [0, 4]
     optlists += [[[a, data(n)], [b, data(m, 1)], [c, data(k, 2)]] for a in t3 for n in l3 for b in t3 for m in l3 for c in t3 for k in l3]
-    sns = [1, 0, 0xFF, 0x100, 0xFFFF] + ([2, 0x7FFF, 0x8000, 0xFFFE] if t else [])
+    sns = [1, 0, 0xFF, 0x100, 0xFFFF] + ([0x8000] if t else [])
     flagsets = [
         {"is_reject": False, "is_close": False, "is_connect": False, "is_heartbeat": False, "is_ack": False},
         {"is_reject": False, "is_close": False, "is_connect": False, "is_heartbeat": False, "is_ack": True},
     ]
     if t:
         flagsets += [
-            {"is_reject": True, "is_close": False, "is_connect": False, "is_heartbeat": False, "is_ack": False},
-            {"is_reject": False, "is_close": True, "is_connect": False, "is_heartbeat": False, "is_ack": False},
-            {"is_reject": False, "is_close": False, "is_connect": True, "is_heartbeat": False, "is_ack": True},
+            {"is_reject": True, "is_close": True, "is_connect": True, "is_heartbeat": False, "is_ack": True},
         ]
-    versions = [0] + ([1, 0xFF] if t else [])
+    versions = [0] + ([0xFF] if t else [])
     items = []
     for (kname, fv), ol, fl, sn, v in itertools.product(reps, optlists, flagsets, sns, versions):
         items.append((kname, fv, {"version": v, "sn": sn, "flags": fl, "options": ol}))
@@ -1312,6 +1316,36 @@ def hrnp_dataless(rep):
     s.done()
 
 
+def radio_ip_space(rep):
+    """RadioIP element (subnet byte + 24-bit id) in both byte orders: layout per radio_ip.ksy, round trip, dotted form"""
+    ids = uniq(spaces.field_alphabet(24) + [1001, 0x010203, env.det_int("c12.id24", 24)])
+    s = rep.sub("radio_ip_element", "all 256 subnets x 24-bit id alphabet x both byte orders: as_bytes equals subnet byte + 3-byte big-endian id (reversed for little), from_bytes/from_ip return the fields")
+    s.declared = 256 * len(ids) * 2
+    for subnet in range(256):
+        for rid in ids:
+            for endian in ("big", "little"):
+                case = {"subnet": subnet, "radio_id": rid, "endian": endian}
+                try:
+                    ip = RadioIP(radio_id=rid, subnet=subnet)
+                    b = ip.as_bytes(endian=endian)
+                    ref = bytes([subnet, (rid >> 16) & 0xFF, (rid >> 8) & 0xFF, rid & 0xFF])
+                    if b != (ref if endian == "big" else ref[::-1]):
+                        s.violation("radio_ip_bytes_layout", case, b.hex())
+                    q = RadioIP.from_bytes(b, endian=endian)
+                    if (q.subnet, q.radio_id) != (subnet, rid) or q.as_bytes(endian=endian) != b:
+                        s.violation("radio_ip_round_trip", case, repr(q))
+                    dotted = "%d.%d.%d.%d" % tuple(ref)
+                    if ip.as_ip() != dotted:
+                        s.violation("radio_ip_dotted_form", case, ip.as_ip())
+                    r = RadioIP.from_ip(dotted)
+                    if (r.subnet, r.radio_id) != (subnet, rid):
+                        s.violation("radio_ip_from_ip", case, repr(r))
+                except Exception as e:
+                    s.violation("radio_ip_exception:" + exc_sig(e), case, repr(e))
+                s.case(nontrivial=True, calls=6, outcome=endian, sample=case if (subnet == 10 and rid == 1001 and endian == "big") else None)
+    s.done()
+
+
 def run(only=None):
     rep = Report("C12")
     rep.explanation = (
@@ -1333,6 +1367,8 @@ def run(only=None):
     nw = env.workers()
 
     selftest_captures(rep)
+    if not only or "radio_ip_element" in only:
+        radio_ip_space(rep)
 
     plan = build_field_spaces(rep, kinds)
     fam_names = {"RRS": "rrs_fields", "LP": "lp_fields", "TMP": "tmp_fields", "RCP": "rcp_fields"}
@@ -1348,7 +1384,7 @@ def run(only=None):
         s = rep.sub(
             sname,
             f"{rules[fam]}: per opcode every base vector, every one-field and two-field variation of two bases over the field alphabets, plus the full product where it fits "
-            f"(thorough LP: reliable x result x full GPS product at both bases); each case bare + nested in a default HRNP DATA frame and a default 2-option HSTRP frame "
+            f"(thorough: stated sub-products at both bases -- LP report: the 9 GPS fields; TMP: reliable x confirmed x option x request id x content; RCP status/alias: all enum fields); each case bare + nested in a default HRNP DATA frame and a default 2-option HSTRP frame "
             f"(product_b* spaces bare only); non-trivial: every case (distinct field vectors, de-duplicated per space)",
         )
         tasks = []
